@@ -721,3 +721,113 @@ def o8(prog):
                          "msg": bad + " (equal exactly for the same attribute of the same DIE, otherwise ordered by DIE offset, then attribute code; a zero-size attribute "
                                       "shares its value pointer with its neighbour)", "detail": None})
     return inst, findings
+
+
+def o10(prog):
+    """The remaining cmp overrides of DWARF / ELF value classes (location-list elements and operations, abbreviation attributes, symbols)
+    interpreted from source - the class's cmp and the compare<T> template it goes through - on every pair and triple of a small family of
+    abstract objects whose fields range over two or three values each (incl. `crossed` ones: smaller in one field, larger in the next).
+    Decided: cmp never fails for two values of the class, a value equals itself and its copy, `A < B` iff `B > A`, and `<` is
+    transitive.  Which objects a class chooses to call equal is its own business (C09 does not say), only that the relation is an order."""
+    import itertools
+    from cxxobj import CxxEvaluator, Obj, Struct, Buf, Ptr, OutOfBounds
+    from absint import Thrown
+    inst, findings = [], []
+
+    def mk_tuple(ev, o, a):
+        return tuple(a)
+    hooks = {"std::make_tuple<*": mk_tuple, "std::tie<*": mk_tuple, "std::forward_as_tuple<*": mk_tuple}
+
+    def op_struct(atom, number, number2, offset):
+        return Struct("Dwarf_Op", {"atom": atom, "number": number, "number2": number2, "offset": offset})
+
+    def fam_abbrev_attr():
+        for off in (0, 3, 5):
+            for name in (2, 3):
+                v = Obj("value_abbrev_attr")
+                v.offset, v.name, v.form, v.m_pos = off, name, 8, 0
+                yield v, "abbreviation attribute at offset %#x" % off
+
+    def fam_symbol():
+        for idx in (0, 1, 7):
+            v = Obj("value_symbol")
+            v.m_symidx, v.m_name, v.m_pos, v.m_dwctx = idx, None, 0, None
+            v.m_symbol = Struct("GElf_Sym", {"st_value": idx * 16, "st_size": 0, "st_info": 0, "st_other": 0, "st_name": 0, "st_shndx": 0})
+            yield v, "symbol #%d" % idx
+
+    def fam_loclist_op():
+        for valp in (0x100, 0x200):
+            for off in (0, 1, 9):
+                v = Obj("value_loclist_op")
+                v.m_attr = Struct("Dwarf_Attribute", {"code": 2, "form": 0x18, "valp": valp, "cu": None})
+                v.m_dwop = op_struct(0x91, 1, 0, off)
+                v.m_pos, v.m_dwctx = 0, None
+                yield v, "operation at offset %d of the expression at %#x" % (off, valp)
+
+    def fam_loclist_elem():
+        exprs = {"e0": [], "e1": [op_struct(0x91, 1, 0, 0)], "e1b": [op_struct(0x91, 2, 0, 0)], "e1c": [op_struct(0x50, 9, 0, 0)], "e2": [op_struct(0x50, 0, 0, 0), op_struct(0x91, 0, 0, 1)]}
+        for valp in (0x100, 0x200):
+            for low, high in ((0, 8), (0, 4), (4, 8), (2, 12)):
+                for en, ops in exprs.items():
+                    v = Obj("value_loclist_elem")
+                    v.m_attr = Struct("Dwarf_Attribute", {"code": 2, "form": 0x17, "valp": valp, "cu": None})
+                    v.m_low, v.m_high, v.m_exprlen = low, high, len(ops)
+                    b = Buf(max(len(ops), 1))
+                    for i, o_ in enumerate(ops):
+                        b.cells[i] = o_
+                    v.m_expr = Ptr(b, 0)
+                    v.m_pos, v.m_dwctx = 0, None
+                    yield v, "element [%d, %d) with expression %s of the list at %#x" % (low, high, en, valp)
+    families = {"value_abbrev_attr": fam_abbrev_attr, "value_symbol": fam_symbol, "value_loclist_op": fam_loclist_op, "value_loclist_elem": fam_loclist_elem}
+    flip = {"less": "greater", "greater": "less", "equal": "equal"}
+    for cls, fam in families.items():
+        f = prog.func_opt(cls + "::cmp")
+        if f is None or f.get("body") is None:
+            raise Broken("anchor %s::cmp vanished" % cls)
+        hk = dict(hooks)
+        hk["zw_value::as<%s>" % cls] = lambda ev, o, a, cls=cls: a[0] if getattr(a[0], "_cls", None) == cls else None
+        ev = CxxEvaluator(hk, {}, prog=prog)
+        vals = list(fam())
+        if cls == "value_loclist_elem":
+            vals = vals[::3] + vals[1:8]      # a sample that keeps crossed pairs; all 40 would be 64000 triples
+        key = "O10:%s::cmp" % cls
+        rel = {}
+        bad = None
+        try:
+            for (i, (a, an)), (j, (b, bn)) in itertools.product(enumerate(vals), repeat=2):
+                ev.steps = 0
+                r = ev.call(f, a, [b])
+                if not (isinstance(r, tuple) and r[0] == "enum"):
+                    raise Broken("%s::cmp did not evaluate to a cmp_result" % cls)
+                rel[(i, j)] = r[1]
+                if r[1] not in flip and bad is None:
+                    bad = "%s::cmp answers `%s` for two values of its own class (%s / %s)" % (cls, r[1], an, bn)
+        except (OutOfBounds, Thrown) as x:
+            bad = "%s::cmp cannot be evaluated on %s: %s" % (cls, an, x)
+        n = len(vals)
+        if bad is None:
+            for i in range(n):
+                if rel[(i, i)] != "equal":
+                    bad = "%s is not equal to itself (%s)" % (vals[i][1], rel[(i, i)])
+                    break
+        if bad is None:
+            for i in range(n):
+                for j in range(n):
+                    if flip[rel[(i, j)]] != rel[(j, i)]:
+                        bad = bad or "%s::cmp: %s compared with %s is `%s`, the other way round `%s`: `A < B` iff `B > A` fails" % (cls, vals[i][1], vals[j][1], rel[(i, j)], rel[(j, i)])
+        if bad is None:
+            for i in range(n):
+                for j in range(n):
+                    if rel[(i, j)] not in ("less", "equal"):
+                        continue
+                    for k in range(n):
+                        if rel[(j, k)] not in ("less", "equal"):
+                            continue
+                        want = "equal" if rel[(i, j)] == rel[(j, k)] == "equal" else "less"
+                        if rel[(i, k)] != want:
+                            bad = bad or "%s::cmp is not transitive: %s %s %s %s %s, but the first compared with the last is `%s`" % (
+                                cls, vals[i][1], "<" if rel[(i, j)] == "less" else "==", vals[j][1], "<" if rel[(j, k)] == "less" else "==", vals[k][1], rel[(i, k)])
+        inst.append((key, {"objects": n, "pairs": n * n}))
+        if bad:
+            findings.append({"key": key, "where": "libzwerg/" + f["l"], "msg": bad, "detail": None})
+    return inst, findings
